@@ -8,18 +8,25 @@ From DtlsV Require Import Gen.GeneratedHs13 Hs.Hs13 Hs.Hs13Live Hs.Hs13Sound.
 Import ListNotations.
 Open Scope N_scope.
 
-(* in the absence of input the k-th consecutive retransmission interval is min(I*2^k, 60 s)
-   (constant I without backoff), the flight stays the same and each expiry comes exactly one new
-   interval after the previous one.  [awaiting]: waiting for a reply with a retransmittable flight *)
+(* in the absence of input the k-th consecutive retransmission interval is [sched c I k], the flight
+   stays the same and each expiry comes exactly one new interval after the previous one.
+   [awaiting]: waiting for a reply with a retransmittable flight *)
 Theorem C17hs13_interval_law :
   forall (c : cfg) (e : ep) (k : nat),
-    awaiting c e -> e_interval e <= 60000 ->
+    awaiting c e ->
     let e' := timeouts k c e in
     awaiting c e' /\ e_flight e' = e_flight e /\ e_out e' = e_out e /\
-    e_interval e' = (if c_backoff c then N.min (e_interval e * 2 ^ N.of_nat k) 60000 else e_interval e) /\
+    e_interval e' = sched c (e_interval e) k /\
     e_timer (timeouts (S k) c e) = e_timer e' + e_interval (timeouts (S k) c e).
 Proof. exact interval_law. Qed.
 Print Assumptions C17hs13_interval_law.
+
+(* [sched c I k] = min(I*2^k, 60 s) with backoff while I < 60 s, constantly I otherwise (an interval
+   configured at or above the cap is never shortened; no overflow whatever I is) *)
+Theorem C17hs13_schedule_bounds :
+  forall (c : cfg) (i : N) (k : nat), i <= sched c i k /\ sched c i k <= N.max i 60000.
+Proof. exact sched_bounds. Qed.
+Print Assumptions C17hs13_schedule_bounds.
 
 (* one expiry: what is left of the current flight is sent again *)
 Theorem C17hs13_timer_step :
@@ -122,7 +129,8 @@ Print Assumptions C17hs13_initial_states_bounded.
    exchange, 33 after its own timer at 1000 ms, 49 after that single delivery) *)
 Theorem C17hs13_amplification_witness :
   sout_len (run_moves storm_cfg (sys_init storm_cfg) storm_moves) = 17%nat /\
-  sout_len (run_moves storm_cfg (sys_init storm_cfg) (storm_moves ++ [Deliver true 28 1000])) = 49%nat /\
+  sout_len (run_moves storm_cfg (sys_init storm_cfg) (storm_moves ++ [Deliver true 28 1000])) = 33%nat /\
+  sout_len (run_moves storm_cfg (sys_init storm_cfg) (storm_moves ++ [Deliver true 28 1600])) = 49%nat /\
   maxrecs storm_cfg = 16%nat.
 Proof. exact storm_witness. Qed.
 Print Assumptions C17hs13_amplification_witness.
